@@ -67,6 +67,8 @@ def validate_batch(batch: dict, workdir: str, tag: str, spec="Trace", timeout=36
             _tail(out)))
     verdict = json.loads(json.loads('"' + m.group(1) + '"'))
     verdict["wall_s"] = wall
+    if not os.environ.get("VERIF_KEEP_SCRATCH"):
+        os.remove(path)                 # the thorough tier would otherwise fill the scratch directory
     return verdict
 
 
